@@ -368,12 +368,6 @@ theorem pyFmtHexU6_ofNat (x : Nat) : pyFmtHexU 6 (Val.ofNat x) = .val (.str (hex
   simp only [pyFmtHexU, int?_ofNat]
   rfl
 
-theorem common_crc_true (m : Msg) (h : IsHex m) (hl : 6 ≤ m.length) :
-    Gen.Ext.common_crc (.str m) (.bool true) = .val (Val.ofNat (crc m true)) := by
-  have hall : (m.all fun c => (hexVal? c).isSome) = true := List.all_eq_true.mpr h
-  have hlt : ¬ (m.length < 6) := by omega
-  simp only [Gen.Ext.common_crc, hall, hlt, Bool.not_true, Bool.false_eq_true, or_self, if_false, Val.truth]
-
 /-- `msg[-6:]` -/
 theorem pySlice_last6 (m : Msg) : pySlice (.str m) (some (Val.num (-6))) none = .val (.str (takeLast 6 m)) := by
   have h6 : (Val.num (-6)).int? = some (-((6 : Nat) : Int)) := by simp [Val.int?]
@@ -386,8 +380,10 @@ theorem pySlice_last6 (m : Msg) : pySlice (.str m) (some (Val.num (-6))) none = 
 theorem isHex_takeLast {m : Msg} (h : IsHex m) (k : Nat) : IsHex (takeLast k m) :=
   fun c hc => h c (List.mem_of_mem_drop hc)
 
-/-- `common.icao(msg)` on a hex string of at least six digits: `None` or the 6-character address -/
-theorem icao_tie (m : Msg) (h : IsHex m) (hl : 6 ≤ m.length) :
+/-- `common.icao(msg)` on a hex string of at least six digits: `None` or the 6-character address, given the tie of
+    `crc` (proved in Tie/Crc.lean, which imports this file; `icao_tie` itself is in Tie/Icao.lean) -/
+theorem icao_tie_of_crc (m : Msg) (h : IsHex m) (hl : 6 ≤ m.length)
+    (hcrc : Gen.py_common.crc (.str m) (.bool true) = .val (Val.ofNat (PyModeS.crc m true))) :
     Gen.py_common.icao (.str m) = .val (Val.ofOptStr (PyModeS.icao m)) := by
   unfold Gen.py_common.icao PyModeS.icao
   have hin1 := pyIn_ofNat (PyModeS.df m) [11, 17, 18]
@@ -398,7 +394,7 @@ theorem icao_tie (m : Msg) (h : IsHex m) (hl : 6 ≤ m.length) :
   have hsl : pySliceNN (Val.str m) 2 8 = .val (.str (slice 2 8 m)) := rfl
   have hup : ∀ s : Msg, pyUpper (.str s) = .val (.str (s.map Char.toUpper)) := fun _ => rfl
   simp only [df_str m h (by omega), bind_val', hin1, hin2, pyTruth_bool, decide_eq_true_eq, hsl, hup,
-    common_crc_true m h hl, pySlice_last6, pyInt2_hex _ (isHex_takeLast h 6) hne, pyBitXor_ofNat, pyFmtHexU6_ofNat,
+    hcrc, pySlice_last6, pyInt2_hex _ (isHex_takeLast h 6) hne, pyBitXor_ofNat, pyFmtHexU6_ofNat,
     Res.pure_eq, List.mem_cons, List.not_mem_nil, or_false]
   split_ifs <;> rfl
 
